@@ -448,3 +448,76 @@ class Unit:
                 out.append(c)
         out.append(CANARY)
         return '\n'.join(out) + '\n'
+
+
+# ---------------------------------------------------------------------------------------------------------------------
+# generic normalisers added for unit dsu (usable by any unit)
+def _split_top_level_and(cond):
+    parts, depth, cur, i = [], 0, '', 0
+    while i < len(cond):
+        ch = cond[i]
+        if ch in '([{':
+            depth += 1
+        elif ch in ')]}':
+            depth -= 1
+        if depth == 0 and cond.startswith('&&', i):
+            parts.append(cur.strip())
+            cur = ''
+            i += 2
+            continue
+        cur += ch
+        i += 1
+    parts.append(cur.strip())
+    return parts
+
+
+def normalize_let_chains(fn):
+    """R4 (generic): `if C1 && let P = E && C2 { B }` (no else) -> nested `if C1 { if let P = E { if C2 { B } } }`"""
+    n = 0
+    pos = 0
+    while True:
+        m = re.search(r'\bif\b([^{};]*?&&\s*let\b[^{};]*?)\{', fn.body[pos:])
+        if not m:
+            break
+        start = pos + m.start()
+        open_ = pos + m.end() - 1
+        close = match_brace(fn.body, open_)
+        after = fn.body[close + 1:].lstrip()
+        if after.startswith('else'):
+            pos = open_ + 1
+            continue
+        parts = _split_top_level_and(m.group(1))
+        head = ' '.join(('if ' + p + ' {') for p in parts)
+        fn.body = fn.body[:start] + head + fn.body[open_ + 1:close] + '}' * len(parts) + fn.body[close + 1:]
+        pos = start + len(head)
+        n += 1
+    if n:
+        fn.rewrites.append(('R4', f'{n} let-chain `if .. && let .. {{ B }}` unfolded into nested ifs (conditions and B verbatim)', ''))
+    return fn
+
+
+def normalize_while_let_some_ref(fn):
+    """R4 (generic): `while let Some(&P) = E { B }` -> `loop { let o_ = match E { Some(x_) => Some(*x_), None => None }; match o_ { Some(P) => { B } None => { break; } } }`"""
+    n = 0
+    while True:
+        m = re.search(r'while let Some\(&(\w+)\) = ([^{]+?)\s*\{', fn.body)
+        if not m:
+            break
+        open_ = m.end() - 1
+        close = match_brace(fn.body, open_)
+        body = fn.body[open_ + 1:close]
+        new = (f'loop {{ let o_ = match {m.group(2).strip()} {{ Some(x_) => Some(*x_), None => None }}; match o_ {{ Some({m.group(1)}) => {{ {body} }} None => {{ break; }} }} }}')
+        fn.body = fn.body[:m.start()] + new + fn.body[close + 1:]
+        n += 1
+    if n:
+        fn.rewrites.append(('R4', f'{n} `while let Some(&p) = E {{ B }}` -> loop + match (E and B verbatim)', ''))
+    return fn
+
+
+def arm_bounds(fn, arm_head, nth=0):
+    """(open, close) brace positions of the block of the nth match arm whose head text is `arm_head` (e.g. `Some(p) => {`)"""
+    ms = _find_all(arm_head, fn.body)
+    if len(ms) <= nth:
+        raise ExtractError(f"lost anchor in {fn.qual}: arm `{arm_head}` matched {len(ms)}x")
+    open_ = ms[nth].end() - 1
+    return open_, match_brace(fn.body, open_)
